@@ -8,6 +8,7 @@ package diff
 // (3) concurrent callers under the cooperative scheduler.
 
 import (
+	"crypto/sha256"
 	"fmt"
 	"os"
 	"path/filepath"
@@ -417,6 +418,68 @@ func TestVerifC01MapOrders(t *testing.T) {
 		r.Count("traces_validated_against_impl", ex.Executions)
 		r.Count("transitions", ex.Points)
 	}
+	// the same for a package with more functions than any per-package budget one might think of
+	// (10 030 small functions of seven shapes): whatever a budget does, it does the same on every run
+	if sh, n := vh.Shard(); sh == 1%n {
+		var sb strings.Builder
+		sb.WriteString("package bigpkg\n\n")
+		for i := 0; i < 10030; i++ {
+			switch i % 7 {
+			case 0:
+				fmt.Fprintf(&sb, "func G%05d(a int) int { return a + %d }\n", i, i%13)
+			case 1:
+				fmt.Fprintf(&sb, "func G%05d(a, b int) int {\n\tif a > b {\n\t\treturn a\n\t}\n\treturn b\n}\n", i)
+			case 2:
+				fmt.Fprintf(&sb, "func G%05d(s []int) int {\n\tt := 0\n\tfor _, v := range s {\n\t\tt += v\n\t}\n\treturn t\n}\n", i)
+			case 3:
+				fmt.Fprintf(&sb, "func G%05d(x string) string { return x + \"!\" }\n", i)
+			case 4:
+				fmt.Fprintf(&sb, "func G%05d(a int) int {\n\tt := 0\n\tfor i := 0; i < a; i++ {\n\t\tt += i\n\t}\n\treturn t\n}\n", i)
+			case 5:
+				fmt.Fprintf(&sb, "func G%05d(a int) func() int { return func() int { return a } }\n", i)
+			default:
+				fmt.Fprintf(&sb, "func G%05d(m map[string]int) int { return len(m) }\n", i)
+			}
+		}
+		d := filepath.Join(scratch, "bigpkg")
+		os.MkdirAll(d, 0o755)
+		p := filepath.Join(d, "big.go")
+		os.WriteFile(p, []byte(sb.String()), 0o644)
+		pkgs, lerr := loadPackagesFromSource(p, sb.String())
+		if lerr != nil {
+			r.Fail("big package: %v", lerr)
+			return
+		}
+		var got string
+		baseline := ""
+		ex := &vrt.Explorer{Bound: 1, MaxExec: 40, OnExec: func(x *vrt.Exec, choices []int) bool {
+			r.Eval()
+			if baseline == "" {
+				baseline = got
+			}
+			if got != baseline {
+				r.Violate("maporder/FingerprintPackages-10030-functions/"+vh.Hash(fmt.Sprint(choices)), "the result list of FingerprintPackages for a package of 10030 functions depends on map iteration order\n"+firstDiffLines(baseline, got), map[string]interface{}{"choices": choices})
+				return false
+			}
+			return !r.Expired()
+		}}
+		ex.Run(func() {
+			res, err := FingerprintPackages(pkgs, ir.DefaultLiteralPolicy, false)
+			h := sha256.New()
+			var first []string
+			for i, x := range res {
+				line := x.FunctionName + "|" + x.Fingerprint
+				h.Write([]byte(c01Render(x)))
+				if i < 40000 {
+					first = append(first, line)
+				}
+			}
+			got = strings.Join(first, "\n") + fmt.Sprintf("\n%x %v", h.Sum(nil), err)
+		})
+		r.Count("traces_validated_against_impl", ex.Executions)
+		r.Count("transitions", ex.Points)
+		r.Nontrivial("FingerprintPackages-10030-functions")
+	}
 }
 
 func firstDiffLines(a, b string) string {
@@ -435,4 +498,3 @@ func firstDiffLines(a, b string) string {
 	}
 	return "(equal)"
 }
-
